@@ -87,6 +87,11 @@ def r8_work(ctx: Ctx, rid: str = "C20.R8") -> None:
                     for f, n in hits[:1]:
                         g = ctx.cfg(f)
                         same = [x.id for ff, x in hits if ff is f]
+                        # ... or hands a closure that holds the primitive to a call (with_s3_retry(put_op, ..)): one function
+                        # may perform the request directly on one arm and through the retry layer on the other
+                        holders = {ff.name for ff, _x in hits if ff is not f and ff.parent is f}
+                        same += [x.id for x in g.calls() if isinstance(x.ast, ast.Call) and any(
+                            isinstance(a_, ast.Name) and a_.id in holders for a_ in list(x.ast.args) + [k.value for k in x.ast.keywords])]
                         rets = [x.id for x in g.nodes if x.kind == "return"] + [g.exit]
                         w = find_path(g, g.entry, rets, avoid=same, labels=NORMAL)
                         if w is not None and name not in ("exists", "list_files"):
